@@ -42,8 +42,19 @@ static void begin(const char *phase, const std::string &step) {
   if (!g_in_child) death_info_update();
   fprintf(g_out, "{\"begin\":%llu,\"phase\":\"%s\",\"step\":%s,\"refstate\":\"%s\"}\n", (unsigned long long)g_run_index, phase, jstr(step).c_str(), g_refstate.c_str());
   fflush(g_out);
+  static const bool layout_probe = getenv("VERIF_LAYOUT") != nullptr;
+  if (layout_probe && !g_in_child) { void *a = malloc(24); fprintf(stderr, "LAYOUT-STEP %llu %s %s %p\n", (unsigned long long)g_run_index, phase, step.c_str(), a); free(a); }
 }
 
+// debugging aid (VERIF_LAYOUT=2): every allocation of the worker process goes to fd 9 as "run size ptr"
+static int g_malloc_log = 0; static uint64_t g_mhash = 0, g_malloc_log_from = 0;
+extern "C" void __sanitizer_malloc_hook(const volatile void *p, size_t sz) {
+  if (!g_malloc_log || g_in_child) return;
+  g_mhash = (g_mhash ^ sz ^ ((uint64_t)(uintptr_t)p << 7)) * 0x100000001b3ULL;
+  if (g_run_index < g_malloc_log_from) return;
+  char b[80]; int n = snprintf(b, sizeof b, "%llu %zu %p\n", (unsigned long long)g_run_index, sz, (void *)p);
+  ssize_t w = write(9, b, (size_t)n); (void)w;
+}
 static std::string g_kinds; // kinds touched by the run, for evidence histograms
 static std::string g_shape; // history shape signature
 
@@ -53,9 +64,19 @@ static std::string report_of(const std::string &err) {
   static const char *marks[] = {"ERROR: AddressSanitizer", "runtime error: ", "Assertion `", "terminate called"};
   size_t at = std::string::npos;
   for (const char *m : marks) { size_t p = err.find(m); if (p < at) at = p; }
-  if (at == std::string::npos) return err.substr(0, 3000);
-  size_t ls = err.rfind('\n', at); ls = (ls == std::string::npos) ? 0 : ls + 1;
-  return err.substr(ls, 3000);
+  size_t ls = 0;
+  if (at != std::string::npos) { ls = err.rfind('\n', at); ls = (ls == std::string::npos) ? 0 : ls + 1; }
+  // "==12345==" carries the child's pid: normalised, or the length of this string (and with it the worker's heap
+  // layout) would depend on how many processes the machine has started so far
+  std::string out; out.reserve(3072);
+  for (size_t i = ls; i < err.size() && out.size() < 3000; i++) {
+    if (err[i] == '=' && i + 1 < err.size() && err[i + 1] == '=' && i + 2 < err.size() && isdigit((unsigned char)err[i + 2])) {
+      size_t j = i + 2; while (j < err.size() && isdigit((unsigned char)err[j])) j++;
+      if (j + 1 < err.size() && err[j] == '=' && err[j + 1] == '=') { out += "==0=="; i = j + 1; continue; }
+    }
+    out += err[i];
+  }
+  return out;
 }
 static std::vector<SymFailure> g_sym;   // symmetric failures (isolated reference calls that did not survive)
 static uint64_t g_mask_hash = FNV_INIT; // which reference calls were excluded: universes are only comparable when equal
@@ -102,14 +123,15 @@ static Probe probe_script(StringDictionary *d, const std::vector<Call> &script, 
     if (pid == 0) {
       g_in_child = true; g_death_spec = nullptr; death_info_update();
       close(dp[0]); close(ep[0]); dup2(ep[1], 2);
-      arm_watchdog(1.5);
+      arm_watchdog(1.5); g_per_call_hook = [] { arm_watchdog(1.5); };
       ScriptRun r = run_script(d, script, &pr.skip, dp[1], resume);
       (void)r;
       uint32_t fin[2] = {0xF1F1F1F1u, 0}; ssize_t w = write(dp[1], fin, sizeof fin); (void)w;
       _exit(0);
     }
     close(dp[1]); close(ep[1]);
-    std::string data, err; char buf[4096];
+    // reserved up front: how the pipes chunk the child's output depends on timing, the parent's heap layout must not
+    std::string data, err; char buf[4096]; data.reserve(1 << 16); err.reserve(24576);
     struct pollfd pf[2] = {{dp[0], POLLIN, 0}, {ep[0], POLLIN, 0}};
     int open_ = 2;
     while (open_ > 0) {
@@ -158,12 +180,13 @@ static Probe probe_script(StringDictionary *d, const std::vector<Call> &script, 
           std::vector<char *> junk;
           for (int i = 0; i < 96; i++) { size_t sz = 16 + (size_t)((i * 2654435761u) % 4000); char *j = new char[sz]; memset(j, 0x5c, sz); junk.push_back(j); }
           for (size_t i = 0; i < junk.size(); i += 2) delete[] junk[i];
+          g_per_call_hook = [] { arm_watchdog(1.5); };
           ScriptRun r2 = run_script(d, script, &pr.skip, -1, 0);
           ssize_t w = write(sp[1], r2.digests.data(), r2.digests.size() * sizeof(uint64_t)); (void)w;
           _exit(0);
         }
         close(sp[1]);
-        std::string buf; char b[4096]; ssize_t n;
+        std::string buf; char b[4096]; ssize_t n; buf.reserve(script.size() * sizeof(uint64_t) + 8192);
         while ((n = read(sp[0], b, sizeof b)) > 0) buf.append(b, (size_t)n);
         close(sp[0]);
         int st2 = 0; waitpid(p2, &st2, 0);
@@ -212,7 +235,7 @@ static bool probe_save(StringDictionary *d, const std::string &ctx) {
     _exit(0);
   }
   close(ep[1]);
-  std::string err; char buf[4096]; ssize_t n;
+  std::string err; char buf[4096]; ssize_t n; err.reserve(24576);
   while ((n = read(ep[0], buf, sizeof buf)) > 0) if (err.size() < 20000) err.append(buf, (size_t)n);
   close(ep[0]);
   int status = 0; waitpid(pid, &status, 0);
@@ -941,7 +964,14 @@ int main(int argc, char **argv) {
     uint64_t base = strtoull(argv[3], 0, 0), first = strtoull(argv[4], 0, 0), count = strtoull(argv[5], 0, 0);
     g_catalogue = atoi(argv[6]);
     std::map<std::string, std::string> ov = argc > 7 ? parse_bar(argv[7]) : std::map<std::string, std::string>();
-    for (uint64_t i = first; i < first + count; i++) { g_run_index = i; g_death_run = i; run_mode(g_mode, base, i, ov); }
+    g_malloc_log = getenv("VERIF_LAYOUT") && atoi(getenv("VERIF_LAYOUT")) == 2; if (getenv("VERIF_LAYOUT_FROM")) g_malloc_log_from = strtoull(getenv("VERIF_LAYOUT_FROM"), 0, 10);
+    const bool layout_probe = getenv("VERIF_LAYOUT") != nullptr; // debugging aid: is the worker's heap layout a function of the seed?
+    for (uint64_t i = first; i < first + count; i++) {
+      g_run_index = i; g_death_run = i;
+      if (g_malloc_log) fprintf(stderr, "MHASH %llu %016llx\n", (unsigned long long)i, (unsigned long long)g_mhash);
+      if (layout_probe) { void *a = malloc(24), *b = malloc(5000); fprintf(stderr, "LAYOUT %llu %p %p\n", (unsigned long long)i, a, b); free(a); free(b); }
+      run_mode(g_mode, base, i, ov);
+    }
     return 0;
   }
   if (cmd == "one" && argc >= 6) {
